@@ -208,13 +208,16 @@ C14inCidr(ev, a, res, post) ==
         => res \in NetAddrs
 
 (* C14.ownerOnly: "only the owner can release what it holds": whatever a     *)
-(* call made in the name of owner o does, entries held by others stay.       *)
-Kept(pre, post, o) == \A p \in pre : p[2] # o => p \in post
+(* call made in the name of owner o does, entries held by another *live*     *)
+(* owner stay.  (Narrowing: what a call may do to an orphaned entry of a     *)
+(* vanished owner is left to C14.gcExact and drift; the code refuses that    *)
+(* too.)                                                                     *)
+Kept(pre, post, o, live) == \A p \in pre : (p[2] # o /\ p[2] \in live) => p \in post
 C14ownerOnly(pre, ev, a, post) ==
   (ev \in GrantOps \cup ReleaseOps) =>
-     /\ Kept(pre.vips, post.vips, a[1])
-     /\ Kept(pre.rules, post.rules, a[1])
-     /\ Kept(pre.specs, post.specs, a[1])
+     /\ Kept(pre.vips, post.vips, a[1], pre.live)
+     /\ Kept(pre.rules, post.rules, a[1], pre.live)
+     /\ Kept(pre.specs, post.specs, a[1], pre.live)
 
 (* C14.gcExact: "garbage collection reclaims exactly those entries whose     *)
 (* owner no longer exists and nothing else".  Synchronize additionally       *)
